@@ -34,23 +34,37 @@ func (t *Text) drawSoftwrap(ctx vxfw.DrawContext) (vxfw.Surface, error)
 extern func github.com/rivo/uniseg.FirstLineSegment(b, state)
   ensures len(result0) + len(result1) == len(b) && (len(b) > 0 ==> len(result0) > 0) && ((len(b) > 0 && len(result1) == 0) ==> result2)
   ensures backing(result0) == backing(b) && offset(result0) == offset(b)
+  ensures len(result1) > 0 ==> (backing(result1) == backing(b) && offset(result1) == offset(b) + len(result0))
 extern func bytes.TrimRightFunc(s, f)
   ensures len(result) <= len(s) && backing(result) == backing(s) && offset(result) == offset(s)
+extern func github.com/rivo/uniseg.HasTrailingLineBreak(b)
 extern func unicode/utf8.DecodeLastRune(p)
   ensures 0 <= result1 && result1 <= len(p) && result1 <= 4
 
 -- Scan: never panics, its loop terminates (every iteration that does not return consumes a non-empty segment), the
 -- measured width of what was put on the line never exceeds the line, and every return outside the long-word case
 -- leaves strictly less text
+pred TextPrefix(s *SoftwrapScanner) = len(s.token) <= old(len(s.rest)) && (forall j in 0..len(s.token): s.token[j] == oldat(s.rest, j))
 func (s *SoftwrapScanner) Scan(ctx vxfw.DrawContext) bool
+  nolocal
   requires chars: ref(ctx.Characters) != 0
   ensures C16_stop: (old(len(s.rest)) == 0 || s.width == 0) ==> !result
   ensures C16_go:   (old(len(s.rest)) > 0 && s.width > 0) ==> result
   exit 3 assert C16_progress3: len(s.rest) < old(len(s.rest)) && w <= s.width
   exit 4 assert C16_progress4: len(s.rest) < old(len(s.rest)) && w <= s.width
   exit 5 assert C16_progress5: len(s.rest) < old(len(s.rest)) && w <= s.width
+  -- outside the long-word case the bytes keep their places: the line is a prefix of the remaining text, what remains
+  -- is a suffix of it, and what lies between is the trailing space that did not fit (exit 5), the line terminator of a
+  -- hard break (exit 4: at most one rune), or nothing (exit 3)
+  exit 3 assert C16_bytes3: TextPrefix(s) && len(s.token) + len(s.rest) == old(len(s.rest))
+  exit 4 assert C16_bytes4: TextPrefix(s) && len(s.token) + len(s.rest) <= old(len(s.rest)) && len(s.token) + len(s.rest) + 4 >= old(len(s.rest))
+  exit 5 assert C16_bytes5: TextPrefix(s) && len(s.token) + len(trSpace) + len(s.rest) == old(len(s.rest))
+  loop 1 preserves old
   loop 1 invariant line: s.width == old(s.width) && s.width > 0 && w <= s.width && 0 < len(s.rest) && len(s.rest) <= old(len(s.rest))
                       && (w > 0 ==> len(s.rest) < old(len(s.rest)))
+  loop 1 invariant C16_bytes: TextPrefix(s) && len(s.token) + len(s.rest) == old(len(s.rest))
+                      && backing(s.rest) == old(backing(s.rest)) && offset(s.rest) == old(offset(s.rest)) + len(s.token)
+                      && backing(s.token) != backing(s.rest) && backing(s.token) >= old(brk())
   loop 1 decreases len(s.rest)
 @*/
 
